@@ -149,6 +149,7 @@ func ruleFOLD(c *Ctx, r *Report) {
 	r.floor(rule, "paths reaching the render-function call", nSucc, 1)
 	// the serialiser dispatches *Expression → Render, []*Expression → Render per element, RangeBoundary → Min then Max
 	c.foldSerialiser(r, dr.Ser, dr.Render, "inline")
+	c.foldSerialiser(r, dr.SerParam, dr.RenderParam, "param")
 }
 
 func (c *Ctx) foldSerialiser(r *Report, ser, render *ssa.Function, mode string) {
@@ -165,6 +166,9 @@ func (c *Ctx) foldSerialiser(r *Report, ser, render *ssa.Function, mode string) 
 			if call, ok := in.(*ssa.Call); ok {
 				sc := call.Call.StaticCallee()
 				if sc == render || sc == ser {
+					cases[typ] = append(cases[typ], fnName(sc)+"("+c.key(call.Call.Args[1], nil)+")")
+				} else if sc != nil && sc.Signature.Recv() != nil && fnPkgPath(sc) == pkgDriver && len(call.Call.Args) == 2 && c.calls(sc, ser) {
+					// a helper method of the driver that wraps the serialiser (e.g. for an unbounded range end)
 					cases[typ] = append(cases[typ], fnName(sc)+"("+c.key(call.Call.Args[1], nil)+")")
 				}
 			}
@@ -185,8 +189,47 @@ func (c *Ctx) foldSerialiser(r *Report, ser, render *ssa.Function, mode string) 
 		return len(cs) == 1 && strings.HasPrefix(cs[0], fnName(render)+"($1.([]*expr.Expression)[")
 	}, "to the renderer once per element in order")
 	check("*expr.RangeBoundary", func(cs []string) bool {
-		return len(cs) == 2 && strings.HasSuffix(cs[0], ".Min)") && strings.HasSuffix(cs[1], ".Max)")
+		if len(cs) != 2 {
+			return false
+		}
+		return strings.Contains(cs[0], ".Min)") && strings.Contains(cs[1], ".Max)")
 	}, "to itself on Min then Max")
+	// list elements: on every cycle of the element loop that continues, the element's rendering is
+	// appended to what is joined (no element is skipped)
+	cps, _ := c.cyclePaths(ser)
+	n := 0
+	for _, cp := range cps {
+		rendered, appended := false, false
+		var rkey string
+		for _, in := range cp.instrs {
+			call, ok := in.(*ssa.Call)
+			if !ok {
+				continue
+			}
+			if call.Call.StaticCallee() == render {
+				rendered = true
+				rkey = c.key(call, nil) + "#0"
+			}
+			if bi, ok := call.Call.Value.(*ssa.Builtin); ok && bi.Name() == "append" && rendered {
+				if strings.Contains(c.key(call.Call.Args[1], nil), rkey) {
+					appended = true
+				}
+			}
+		}
+		if !rendered {
+			continue
+		}
+		n++
+		key := fmt.Sprintf("%s|serialiser|list-cycle%d", mode, n)
+		if appended {
+			r.ok(rule, key, c.pos(ser.Pos()), "element rendering appended on this cycle")
+		} else {
+			r.bad(rule, key, c.pos(ser.Pos()), fmt.Sprintf("the %s serialiser has a cycle of its list loop that renders an element but does not add its text to the list (elements can be skipped): the list function no longer receives the fold of all its children", mode))
+		}
+	}
+	if n == 0 {
+		r.bad(rule, mode+"|serialiser|list-loop", c.pos(ser.Pos()), "the "+mode+" serialiser does not render list elements one by one through the renderer")
+	}
 }
 
 func ruleFOLDMISS(c *Ctx, r *Report) {
